@@ -237,6 +237,11 @@ Theorem C07_check_groups_complete : forall (A K : Type) (eqk : K -> K -> bool) (
   check_groups eqA eqk (keyb eqk key) inp gs = true.
 Proof. exact (@check_groups_complete). Qed.
 
+(* minMax: implementation model and documented model (the first item with the minimal / maximal value of
+   f, found by two folds) give the same map, or both fail (which failure comes first is not fixed) *)
+Theorem C07_minMax_spec : forall f l, same_outcome (t_minMax f (of_list l)) (d_minMax f l).
+Proof. exact minMax_spec. Qed.
+
 (* non-vacuity: a pipeline with a failing callback behind a truncating stage, and the repaired corners *)
 Example C07_nonvacuous_lazy :
   collect (s_top 1 (s_map (fun x => match x with VInt 1 => Ok x | _ => Err None end) (of_list [VInt 1; VInt 2])))
@@ -273,3 +278,4 @@ Print Assumptions C07_replace_absent_invisible.
 Print Assumptions C07_groupBy_model_passes_checker.
 Print Assumptions C07_unique_model_passes_checker.
 Print Assumptions C07_check_groups_complete.
+Print Assumptions C07_minMax_spec.
